@@ -25,9 +25,13 @@ type DSServer struct {
 	handler http.Handler
 	// Fault, if set, is consulted for every request; a non-nil error fails
 	// the round trip, a non-zero status short-circuits with that status.
-	mu       sync.Mutex
-	fault    func(n int, r *http.Request) (status int, err error)
-	requests atomic.Int64
+	mu    sync.Mutex
+	fault func(n int, r *http.Request) (status int, err error)
+	// afterFault, if set, is consulted after the request has been served: a
+	// non-nil error makes the round trip fail although the server applied
+	// the request (the answer is lost on the way back).
+	afterFault func(n int, r *http.Request) error
+	requests   atomic.Int64
 }
 
 // NewDSServer creates a server whose catch-up reads return at most chunkBytes
@@ -45,6 +49,14 @@ const DSBase = "http://ds.invalid/v1/stream"
 func (s *DSServer) SetFault(f func(n int, r *http.Request) (int, error)) {
 	s.mu.Lock()
 	s.fault = f
+	s.mu.Unlock()
+}
+
+// SetAfterFault installs a fault that loses the answer of a request the
+// server has already applied.
+func (s *DSServer) SetAfterFault(f func(n int, r *http.Request) error) {
+	s.mu.Lock()
+	s.afterFault = f
 	s.mu.Unlock()
 }
 
@@ -80,6 +92,15 @@ func (s *DSServer) RoundTrip(r *http.Request) (*http.Response, error) {
 	s.handler.ServeHTTP(rec, r2)
 	resp := rec.Result()
 	resp.Request = r
+	s.mu.Lock()
+	af := s.afterFault
+	s.mu.Unlock()
+	if af != nil {
+		if err := af(n, r); err != nil {
+			resp.Body.Close()
+			return nil, err
+		}
+	}
 	return resp, nil
 }
 
